@@ -390,6 +390,11 @@ pub struct Gen {
 	pub force_drop_at: Option<u64>,
 	/// runs of consecutive zero-volume candles (untraded stretches) of random length
 	pub droughts: bool,
+	/// now and then a candle with open = high = low = close at a NEW price (a gap followed by a bar without a range)
+	pub doji_gaps: bool,
+	/// trading halts: now and then the last close repeated as a rangeless candle for 3..42 bars
+	pub halts: bool,
+	pub halt_left: u32,
 	drought_left: u64,
 	/// regimes lasting hundreds of steps, including steady rallies / declines without pullbacks (C07)
 	pub long_regimes: bool,
@@ -423,7 +428,7 @@ impl Gen {
 		let scale = *rng.pick(&[1e-3, 0.37, 1.0, 12.5, 100.0, 3e4]);
 		let cur = scale * (0.5 + rng.unit());
 		let shape = rng.below(8);
-		Self { no_zero_volume: false, no_plateau: false, force_drop_at: None, droughts: false, drought_left: 0, long_regimes: false, regime_left: 0, one_sided: false, side: 0, burst_left: 0, burst_amp: 0.0, tick_grid: None, grid_left: 0, grid_dir: 1.0, grid_tick: 0.0, quiet: false, calls: 0, rng, scale, cur, shape, positive }
+		Self { no_zero_volume: false, no_plateau: false, force_drop_at: None, droughts: false, doji_gaps: false, halts: false, halt_left: 0, drought_left: 0, long_regimes: false, regime_left: 0, one_sided: false, side: 0, burst_left: 0, burst_amp: 0.0, tick_grid: None, grid_left: 0, grid_dir: 1.0, grid_tick: 0.0, quiet: false, calls: 0, rng, scale, cur, shape, positive }
 	}
 	fn finish(&mut self, mut v: f64) -> f64 {
 		if self.positive {
@@ -506,6 +511,18 @@ impl Gen {
 	/// valid candle around the current price (positive prices, low <= open, close <= high, volume >= 0)
 	pub fn candle(&mut self) -> Candle {
 		self.positive = true;
+		if self.halts && !self.no_plateau && self.calls > 3 {
+			if self.halt_left == 0 && self.rng.chance(0.035) {
+				self.halt_left = 3 + self.rng.below(40) as u32;
+			}
+			if self.halt_left > 0 && self.cur > 0.0 {
+				self.halt_left -= 1;
+				self.calls += 1;
+				let p = self.cur;
+				let v = if self.no_zero_volume || self.rng.chance(0.3) { 1.0 } else { 0.0 };
+				return candle(p, p, p, p, v);
+			}
+		}
 		let prev = self.cur.abs().max(self.scale * 1e-3);
 		let close = self.scalar();
 		let open = if self.rng.chance(0.7) || self.shape >= 8 { prev } else { close * (1.0 + 0.02 * (self.rng.unit() - 0.5)) };
@@ -531,6 +548,11 @@ impl Gen {
 		};
 		let mut close = close;
 		let (mut open, mut high, mut low) = (open, high, low);
+		if self.doji_gaps && self.rng.chance(0.06) {
+			open = close;
+			high = close;
+			low = close;
+		}
 		if self.one_sided {
 			if self.grid_left == 0 && self.rng.chance(0.02) {
 				self.grid_left = 30 + self.rng.below(60) as u32;
